@@ -20,6 +20,23 @@ def sentinel_token(F):
                 return v[2]
             if v[0] == 'agg':
                 return v[2]
+    # written out: `match self.tokenizer.next() { Some(t) => t, None => Token::X }` - on the path where next() answered None, the
+    # token stored as the current one
+    for p in AbsInt(F, fn, max_paths=200).run():
+        if p.exit != 'return':
+            continue
+        none_path = any(c[0][0] == 'variant' and 'option::Option' in str(c[0][2]) and c[1] == 'None' and 'Iterator>::next' in str(c[0][3:]) for c in p.constraints)
+        if not none_path:
+            continue
+        for w in p.writes:
+            v = simp(w[2])
+            if isinstance(v, tuple) and v and v[0] == 'agg' and v[1] == TOKEN:
+                return v[2]
+            if isinstance(v, tuple) and v and v[0] == 'enum' and v[1] == TOKEN:
+                return v[2]
+        for k, v in p.env.items():
+            if k.startswith('_1.*.f') and isinstance(v, tuple) and v and v[0] in ('agg', 'enum') and v[1] == TOKEN:
+                return v[2]
     raise CheckerError('TRM: cannot find the end-of-input sentinel (unwrap_or in Parser::advance)')
 
 
